@@ -36,10 +36,11 @@ def fd_mask(cls, case, pts, h):
     """Points whose stencil stays inside one smooth branch / the domain."""
     x = pts["x"]
     if cls in ("Log", "BoxCox2", "BoxCox1lam", "BoxCox1nu", "Reciprocal"):
-        ok = pts["z"] - 2 * h > pts["mininu"] * 1.001
         if cls == "Reciprocal":
-            ok &= pts["z"] + 2 * h < 0.999 / pts["mininu"]
-        return ok
+            # domain x + nu > 0, whatever mininu
+            return (pts["z"] - 2 * h > 1e-9) & \
+                (pts["z"] + 2 * h < 0.999 / pts["mininu"])
+        return pts["z"] - 2 * h > pts["mininu"] * 1.001
     if cls == "BoxCox2sym":
         return np.abs(x) > 3 * h
     if cls == "YeoJohnson":
@@ -251,9 +252,11 @@ def monotone_check(t, case, setting, k, labels):
     # keep the points in the domain
     if cls in ("Log", "BoxCox2", "BoxCox1lam", "BoxCox1nu", "Reciprocal"):
         nu = tc.getp(t, "nu")
-        allx = allx[allx + nu > pts["mininu"] * 1.001]
         if cls == "Reciprocal":
-            allx = allx[allx + nu < 0.999 / pts["mininu"]]
+            allx = allx[(allx + nu > 1e-9)
+                        & (allx + nu < 0.999 / pts["mininu"])]
+        else:
+            allx = allx[allx + nu > pts["mininu"] * 1.001]
     if cls == "Logit":
         lo, up = pts["lower"], pts["upper"]
         allx = allx[(allx > lo + (up - lo) * 1e-9 + 2 * EPS)
